@@ -82,7 +82,8 @@ Failed ==
     F("C10_Least", T.generic => C10_Least(DP, CU)) \cup
     F("C12_Shape", (CU.st = "fail" => C12_Shape(DP, CU.err)) /\ (CP.st = "fail" => C12_Shape(DP, CP.err))) \cup
     \* C14 on a recorded pair: cu = run on (raw, 0), cu2 = run on (pre \o raw \o post, shift)
-    F("C14_Lockstep", (T.has2 /\ ((CU.st = "done" /\ ~OpenEnded(MU)) \/ (CU.st = "fail" /\ T.nopost)))
+    F("C14_Lockstep", (T.has2 /\ ~BeforeStart(T.shift, T.cu2)    \* named deviation F10b reported separately
+                       /\ ((CU.st = "done" /\ ~OpenEnded(MU)) \/ (CU.st = "fail" /\ T.nopost)))
                           => C14_Lockstep(CU, T.cu2, T.shift)) \cup
     F("dev_F10b", ~(T.has2 /\ Dev_F10b(T.shift, T.cu2)))
 
